@@ -1517,3 +1517,12 @@ func specNoOperandNeeds66(k ocode.OcodeKind, mode int) bool {
 //@ calls[mode@C17] processOcode : arg0.BitMode == 0 || arg1.BitMode == arg0.BitMode
 //@ ensures[result@C14+C10+C03] len(result0) == len(ctx.MachineCode)
 //@ assigns CodeGenContext.MachineCode, CodeGenContext.VS, CodeGenContext.BitMode, VariantStack
+
+// Thin safety-only contracts (C13): these functions get one obligation per panic site; callers keep
+// using their bodies (option inline).
+
+//@ func handleL
+//@ props C13
+//@ option inline
+//@ requires vs != nil
+//@ ensures[safe] true
